@@ -197,6 +197,10 @@ pub fn run_pipeline(
             Ok(fds) => fds_capture_stdout = Some(fds),
             Err(e) => {
                 println_stderr!("cicada: pipeline2: {}", e);
+                for fds in pipes {
+                    libs::close(fds.0);
+                    libs::close(fds.1);
+                }
                 return (false, CommandResult::error());
             }
         }
@@ -204,6 +208,10 @@ pub fn run_pipeline(
             Ok(fds) => fds_capture_stderr = Some(fds),
             Err(e) => {
                 if let Some(fds) = fds_capture_stdout {
+                    libs::close(fds.0);
+                    libs::close(fds.1);
+                }
+                for fds in pipes {
                     libs::close(fds.0);
                     libs::close(fds.1);
                 }
